@@ -428,3 +428,184 @@ theorem mem_addSpecials (c : AddCfg) (ids : List Nat) :
   · exact Or.inl hid
 
 end OllamaVerif.Tok
+
+namespace OllamaVerif.Tok
+
+/-! ## SentencePiece -/
+
+theorem spmDecode_append (V : Vocab) (a b : List Nat) (x y : Str)
+    (ha : spmDecode V a = some x) (hb : spmDecode V b = some y) :
+    spmDecode V (a ++ b) = some (x ++ y) := by
+  induction a generalizing x with
+  | nil => simp [spmDecode] at ha; subst ha; simpa using hb
+  | cons id ids ih =>
+    simp only [spmDecode, List.cons_append] at ha ⊢
+    cases h1 : spmDecodeTok V id with
+    | none => simp [h1] at ha
+    | some u =>
+      cases h2 : spmDecode V ids with
+      | none => simp [h1, h2] at ha
+      | some v =>
+        simp only [h1, h2, Option.some.injEq] at ha
+        subst ha
+        simp [ih v h2, List.append_assoc]
+
+theorem byteTok_facts : ∀ b, b < 256 →
+    utf8s ((byteTok b).map sepToSpace) = byteTok b ∧ parseByteTok (byteTok b) = some (some b) := by
+  decide +kernel
+
+theorem utf8_lt (r : Nat) (h : r < 0x110000) : ∀ b ∈ utf8 r, b < 256 := by
+  intro b hb
+  unfold utf8 at hb
+  split at hb
+  · simp at hb; omega
+  · split at hb
+    · simp at hb; omega
+    · split at hb
+      · simp at hb; omega
+      · simp at hb; omega
+
+theorem utf8s_lt (rs : Str) (h : ∀ r ∈ rs, r < 0x110000) : ∀ b ∈ utf8s rs, b < 256 := by
+  intro b hb
+  simp only [utf8s, List.mem_flatMap] at hb
+  obtain ⟨r, hr, hbr⟩ := hb
+  exact utf8_lt r (h r hr) b hbr
+
+theorem utf8s_append (a b : Str) : utf8s (a ++ b) = utf8s a ++ utf8s b := by simp [utf8s]
+
+/-- the vocabulary has all 256 byte tokens -/
+def Vocab.HasByteTokens (V : Vocab) : Prop := ∀ b, b < 256 → (V.tokId (byteTok b)).isSome = true
+
+theorem spm_fallback (V : Vocab) (hwf : V.Wf) (hbt : V.HasByteTokens) (bs : Str) (h : ∀ b ∈ bs, b < 256) :
+    spmDecode V (bs.filterMap fun b => V.tokId (byteTok b)) = some bs := by
+  induction bs with
+  | nil => rfl
+  | cons b bs ih =>
+    have hb := h b (by simp)
+    obtain ⟨i, hi⟩ := Option.isSome_iff_exists.mp (hbt b hb)
+    have hs := (hwf _ _ hi).1
+    have hf := byteTok_facts b hb
+    have h1 : spmDecodeTok V i = some [b] := by simp [spmDecodeTok, hs, hf.1, hf.2]
+    have := ih (fun x hx => h x (List.mem_cons_of_mem _ hx))
+    simp [List.filterMap_cons, hi, spmDecode, h1, this]
+
+theorem map_sepToSpace_id (p : Str) (h : sepRune ∉ p) : p.map sepToSpace = p := by
+  induction p with
+  | nil => rfl
+  | cons r p ih =>
+    simp only [List.mem_cons, not_or] at h
+    simp only [List.map_cons, ih h.2]
+    congr 1
+    simp only [sepToSpace]
+    split
+    · rename_i h'; exact absurd h'.symm h.1
+    · rfl
+
+theorem map_sep_roundtrip (t : Str) (h : sepRune ∉ t) : (t.map spaceToSep).map sepToSpace = t := by
+  induction t with
+  | nil => rfl
+  | cons r t ih =>
+    simp only [List.mem_cons, not_or] at h
+    simp only [List.map_cons, ih h.2]
+    congr 1
+    simp only [spaceToSep, sepToSpace]
+    split
+    · rename_i h'; simp [h']
+    · split
+      · rename_i h'; exact absurd h'.symm h.1
+      · rfl
+
+/-- decode of the ids of one token string `p`: either `p` is a token, or it contains no U+2581 and
+    is spelled with byte tokens -/
+theorem spmToken_decode (V : Vocab) (hwf : V.Wf) (hbt : V.HasByteTokens) (p : Str)
+    (hvalid : ∀ r ∈ p, r < 0x110000)
+    (hcase : (V.tokId p).isSome = true ∨ sepRune ∉ p)
+    (hnolit : parseByteTok (utf8s (p.map sepToSpace)) = none) :
+    spmDecode V (spmToken V p) = some (utf8s (p.map sepToSpace)) := by
+  unfold spmToken
+  split
+  · rename_i id hid
+    have hs := (hwf _ _ hid).1
+    simp [spmDecode, spmDecodeTok, hs, hnolit]
+  · rename_i hnone
+    have hno : sepRune ∉ p := by
+      rcases hcase with h | h
+      · simp [hnone] at h
+      · exact h
+    rw [map_sepToSpace_id p hno]
+    exact spm_fallback V hwf hbt _ (utf8s_lt p hvalid)
+
+/-- no contiguous piece of the text spells a byte-token literal `<0x??>` (6 bytes) -/
+def NoByteLit (s : Str) : Prop := ∀ pre m post, s = pre ++ m ++ post → parseByteTok (utf8s m) = none
+
+theorem NoByteLit.infix {s : Str} (h : NoByteLit s) (a t b : Str) (hs : s = a ++ t ++ b) : NoByteLit t := by
+  intro pre m post ht
+  apply h (a ++ pre) m (post ++ b)
+  rw [hs, ht]; simp [List.append_assoc]
+
+theorem mem_flatten_split {α} (l : List (List α)) (x : List α) (h : x ∈ l) :
+    ∃ a b, l.flatten = a ++ x ++ b := by
+  obtain ⟨s, t, rfl⟩ := List.append_of_mem h
+  exact ⟨s.flatten, t.flatten, by simp⟩
+
+theorem spmCfg_ok (V : Vocab) (c : Cand) (l r : Str) (h : (spmCfg V).ok c l r = true) :
+    (V.tokId (l ++ r)).isSome = true := by
+  simp only [spmCfg, Bool.and_eq_true] at h
+  exact h.2
+
+theorem spmParts_decode (V : Vocab) (hwf : V.Wf) (hbt : V.HasByteTokens) (ps : List Part)
+    (h : ∀ p ∈ ps, (∀ r ∈ p.runes, r < 0x110000) ∧ ((V.tokId p.runes).isSome = true ∨ sepRune ∉ p.runes) ∧
+      parseByteTok (utf8s (p.runes.map sepToSpace)) = none) :
+    spmDecode V (ps.flatMap fun p => spmToken V p.runes) = some (utf8s ((concatParts ps).map sepToSpace)) := by
+  induction ps with
+  | nil => rfl
+  | cons p ps ih =>
+    obtain ⟨h1, h2, h3⟩ := h p (by simp)
+    have hp := spmToken_decode V hwf hbt p.runes h1 h2 h3
+    have hr := ih (fun q hq => h q (List.mem_cons_of_mem _ hq))
+    simp only [List.flatMap_cons]
+    rw [spmDecode_append V _ _ _ _ hp hr]
+    simp [concatParts, utf8s_append]
+
+theorem spmText_decode (V : Vocab) (hwf : V.Wf) (hbt : V.HasByteTokens)
+    (hsep : (V.tokId [sepRune]).isSome = true) (t : Str)
+    (hvalid : ∀ r ∈ t, r < 0x110000) (hnosep : sepRune ∉ t) (hnolit : NoByteLit t) :
+    spmDecode V (spmText V t) = some (utf8s t) := by
+  have hback := map_sep_roundtrip t hnosep
+  unfold spmText
+  simp only
+  split
+  · rename_i id hid
+    have hs := (hwf _ _ hid).1
+    have : parseByteTok (utf8s t) = none := hnolit [] t [] (by simp)
+    simp [spmDecode, spmDecodeTok, hs, hback, this]
+  · rw [spmParts_decode V hwf hbt, mergeAll_concat, hback]
+    intro p hp
+    have hP := mergeAll_all (fun u => (V.tokId u).isSome = true ∨ ∃ r, u = [r]) (spmCfg V)
+      (fun c l r h => Or.inl (spmCfg_ok V c l r h)) (t.map spaceToSep) (fun r _ => Or.inr ⟨r, rfl⟩) p hp
+    have hcat := mergeAll_concat (spmCfg V) (t.map spaceToSep)
+    obtain ⟨a, b, hab⟩ := mem_flatten_split _ p.runes (List.mem_map.mpr ⟨p, hp, rfl⟩)
+    unfold concatParts at hcat
+    rw [hcat] at hab
+    -- p.runes is a contiguous piece of the mapped text
+    have hmem : ∀ r ∈ p.runes, r ∈ t.map spaceToSep := by
+      intro r hr; rw [hab]; simp [hr]
+    have ht : t = a.map sepToSpace ++ p.runes.map sepToSpace ++ b.map sepToSpace := by
+      rw [← hback, hab]; simp
+    refine ⟨?_, ?_, ?_⟩
+    · intro r hr
+      have := hmem r hr
+      simp only [List.mem_map] at this
+      obtain ⟨x, hx, rfl⟩ := this
+      simp only [spaceToSep]
+      split
+      · simp [sepRune]
+      · exact hvalid x hx
+    · rcases hP with h | ⟨r, hr⟩
+      · exact Or.inl h
+      · by_cases hrs : r = sepRune
+        · left; rw [hr, hrs]; exact hsep
+        · right; rw [hr]; simp; exact fun h => hrs h.symm
+    · exact hnolit _ _ _ ht
+
+end OllamaVerif.Tok
